@@ -519,7 +519,9 @@ class State(object):
             # ties it to the queried symbols: an assignment to it is a model of the abstraction, not of an execution - no witness
             return None
         atoms = sorted(atoms, key=repr)
-        if len(atoms) > 20:
+        if _os.environ.get('STV_DEBUG_WITNESS') and len(atoms) > 20:
+            print('NOWITNESS too many atoms', len(atoms))
+        if len(atoms) > 36:
             return None
         pool = set([0, 1, 2, 3])
         rngs = {}
@@ -558,10 +560,13 @@ class State(object):
         # order atoms: those appearing in most facts first; check a fact as soon as all its atoms are assigned
         fact_atoms = [(f, base_atoms(f)) for f in rel_facts]
         ne_atoms = [(f, base_atoms(f)) for f in rel_ne]
-        order = sorted(atoms, key=lambda a: -sum(1 for f, fa in fact_atoms if a in fa))
         lin_atoms = set()
         for l in lins:
             base_atoms(l, lin_atoms)
+        # goal-directed: the symbols of the queried terms first (the goal is tested as soon as they are all assigned), then
+        # the others by how many facts they take part in
+        order = sorted(atoms, key=lambda a: (0 if a in lin_atoms else 1, -sum(1 for f, fa in fact_atoms if a in fa)))
+        n_goal = len([a for a in order if a in lin_atoms]) if all(a in atoms for a in lin_atoms) else None
         env = {}
         budget = [limit * 5]
 
@@ -585,6 +590,12 @@ class State(object):
         def rec(k):
             if budget[0] <= 0:
                 return None
+            if n_goal is not None and k == n_goal and k < len(order):
+                try:
+                    if not want([eval_lin(l, env) for l in lins]):
+                        return None
+                except KeyError:
+                    pass
             if k == len(order):
                 try:
                     vals = [eval_lin(l, env) for l in lins]
